@@ -22,6 +22,7 @@ Directives (one per line, payload = following non-directive lines):
   //@after `anchor`[ #n]                  payload placed after it
   //@afterstmt / //@beforestmt `anchor`   payload placed after / before the whole statement that contains the anchor
   //@atend                                payload placed before the closing brace of the fn body
+  //@tail <name>                          names the tail expression (`let name = <tail>; payload; name`), insertions only
   //@end                                  closes the current fn
   //@endimpl
 Everything else is copied verbatim (ghost text).
@@ -47,6 +48,7 @@ RULES = {
     "R8": "`crate::`/module path prefix removed or constant path renamed (single-file unit has one module)",
     "R9": "panic-family macro with format arguments -> same macro without the formatted message",
     "R10": "type alias / `Self::X` assoc-type path spelled out",
+    "R11": "`const X: T = e;` written in Verus's exec-const form `exec const X: T ensures .. { e }` (same initializer expression)",
 }
 
 TRACE_MACROS = {"trace", "debug", "info", "warn", "error"}
@@ -263,7 +265,7 @@ class Extractor:
         return cands[nth - 1]
 
     # ---------- template processing
-    def run_template(self, path, depth=0):
+    def run_template(self, path, depth=0, assume=False):
         if depth > 5:
             raise ExtractError("extract-error", "include depth")
         lines = open(path, encoding="utf-8").read().split("\n")
@@ -308,7 +310,8 @@ class Extractor:
                 self.src_files.add(arg)
             elif cmd == "include":
                 close_fn()
-                self.run_template(os.path.join(os.path.dirname(path), arg), depth + 1)
+                a2 = arg.split()
+                self.run_template(os.path.join(os.path.dirname(path), a2[0]), depth + 1, assume or (len(a2) > 1 and a2[1] == "assume"))
             elif cmd == "rwall":
                 parts, rest = parse_backticks(arg)
                 rule = rest.split()[0]
@@ -391,7 +394,7 @@ class Extractor:
                     raise ExtractError("lost-anchor", f"{where}: fn `{name}` not found in {self.sf.rel} {owner}")
                 it = cands[nth - 1]
                 cur_fn = dict(kind="fn", item=it, sf=self.sf, ret=ret, ins=[], rws=[], where=where, opts=[],
-                              path=f"{self.sf.rel}::{owner + ' :: ' if owner else ''}{name}", impl=owner, name=name)
+                              path=f"{self.sf.rel}::{owner + ' :: ' if owner else ''}{name}", impl=owner, name=name, assume=assume)
             elif cmd == "rw":
                 parts, rest = parse_backticks(arg)
                 r = rest.split()
@@ -407,6 +410,9 @@ class Extractor:
             elif cmd in ("sig", "attr", "atend", "atstart"):
                 txt, i = payload(i)
                 cur_fn["ins"].append((cmd, None, 1, txt, where))
+            elif cmd == "tail":
+                txt, i = payload(i)
+                cur_fn["ins"].append(("tail", arg.strip(), 1, txt, where))
             elif cmd in ("loop", "loopstart", "loopend"):
                 txt, i = payload(i)
                 cur_fn["ins"].append((cmd, int(arg), 1, txt, where))
@@ -522,6 +528,11 @@ class Extractor:
                 reg.add(toks[arrow + 1].start, toks[arrow + 1].start, f"({f['ret']}: ", "ins", "ret-name")
                 reg.add(toks[e - 1].end, toks[e - 1].end, ")", "ins", "ret-name")
         loops = None
+        if f.get("assume") and not any(k == "attr" and "external_body" in t for (k, _, _, t, _) in f["ins"]):
+            # contract assumed in this unit (proved in the unit that includes the same template without `assume`)
+            f["ins"] = [("attr", None, 1, "#[verifier::external_body] /* assumed here, proved in another unit */\n", f["where"])] + \
+                       [x for x in f["ins"] if x[0] in ("attr", "sig", "atstart")]
+            f["assumed_elsewhere"] = True
         for (kind, arg, nth, txt, where) in f["ins"]:
             if kind == "attr":
                 reg.add(toks[first_tok].start, toks[first_tok].start, txt, "ins", "attr")
@@ -533,6 +544,22 @@ class Extractor:
                 reg.add(toks[it.last].start, toks[it.last].start, "\n" + txt, "ins", "atend")
             elif kind == "atstart":
                 reg.add(toks[body_open].end, toks[body_open].end, "\n" + txt, "ins", "atstart")
+            elif kind == "tail":
+                # name the value of the tail expression: `let <name> = <tail>; <payload> <name>` (insertions only)
+                k = body_open + 1
+                start = body_open + 1
+                while k < it.last:
+                    if toks[k].text in ("(", "[", "{"):
+                        k = brk[k] + 1
+                        continue
+                    if toks[k].text == ";":
+                        start = k + 1
+                    k += 1
+                if start >= it.last:
+                    raise ExtractError("lost-anchor", f"{where}: fn {f['path']} has no tail expression")
+                nm = arg.split(":")[0].strip()
+                reg.add(toks[start].start, toks[start].start, f"let {arg} = ", "ins", "tail-name")
+                reg.add(toks[it.last].start, toks[it.last].start, ";\n" + txt + f"\n{nm}\n", "ins", "tail")
             elif kind in ("loop", "loopstart", "loopend"):
                 if loops is None:
                     loops = find_loops(toks, brk, body_open + 1, it.last)
@@ -583,6 +610,7 @@ class Extractor:
         rec["gen_line_start"] = start_line
         rec["gen_line_end"] = self.line
         rec["external_body"] = any(k == "attr" and "external_body" in t for (k, _, _, t, _) in f["ins"])
+        rec["assumed_elsewhere"] = bool(f.get("assumed_elsewhere"))
         self.fnmap.append(rec)
 
 
